@@ -19,7 +19,7 @@
 #include <stdlib.h>
 #include <string.h>
 
-static cm_model_t M;
+#include "api_cat.inc"    /* defines M, run_entry(), entry_name(), entry_variants(), N_HL, N_LL */
 void *bidib_auto_flush(void *);
 static int harness_id; static int reference_mode;
 /* getter observations of the concurrent threads (serialised) */
@@ -152,8 +152,138 @@ static void c10_child(const void *job, size_t n) {
 	res_printf("O %llx %llx\n", (unsigned long long) h.a, (unsigned long long) h.b);
 	hx_emit_trace(); res_finish();
 }
+
+/* ---------------------------------------------------------------- H5: the whole API, pair-wise
+ * Every ordered pair (a, b) of the N_HL+N_LL catalogue calls (all getters, setters, util functions, queue readers, flush and
+ * the 72 low-level send functions; bidib_send_sys_reset excluded: the README forbids it concurrently) runs on two
+ * application threads — each thread performs the call with every argument class (<=16 per entry: valid ids of every kind,
+ * wrong kind, unknown, NULL) — while the receiver thread applies a batch of 20 feedback messages that touches every kind of
+ * tracked state.  rx_mode 0: the batch is queued before the threads start (receiver first under the default schedule),
+ * 1: thread b queues it when it is done (receiver last).  TSan build: any race report is a violation.  Plain build: ledger
+ * (locks held at exit, unlock of a lock not held), crashes and deadlocks. */
+static const struct { int board; uint8_t type; uint8_t d[10]; int dl; } RXB[] = {
+	{0, MSG_BM_OCC, {0}, 1}, {0, MSG_BM_ADDRESS, {0, 0x23, 0x01}, 3}, {0, MSG_BM_MULTIPLE, {0, 8, 0x03}, 3}, {0, MSG_BM_CONFIDENCE, {1, 0, 0}, 3},
+	{0, MSG_BM_CURRENT, {0, 20}, 2}, {0, MSG_BM_SPEED, {0x23, 0x01, 40, 0}, 4}, {0, MSG_BM_DYN_STATE, {0, 0x23, 0x01, 1, 50}, 5}, {1, MSG_BM_OCC, {0}, 1},
+	{1, MSG_ACCESSORY_STATE, {2, 0, 2, 0, 0}, 5}, {2, MSG_LC_STAT, {0x23, 0x01, 1}, 3}, {2, MSG_ACCESSORY_STATE, {0x10, 2, 2, 0, 0}, 5},
+	{0, MSG_CS_STATE, {3}, 1}, {0, MSG_CS_DRIVE_ACK, {0x23, 0x01, 1}, 3}, {0, MSG_CS_ACCESSORY_ACK, {0x22, 0x11, 1}, 3}, {0, MSG_CS_DRIVE_MANUAL, {0x23, 0x01, 3, 0x03, 0x8A, 0x10, 0, 0, 0}, 9},
+	{0, MSG_CS_ACCESSORY_MANUAL, {0x22, 0x11, 0x21}, 3}, {0, MSG_BOOST_STAT, {0x80}, 1}, {0, MSG_BOOST_DIAGNOSTIC, {0, 10, 1, 120, 2, 30}, 6},
+	{0, MSG_BM_FREE, {0}, 1}, {3, MSG_BOOST_STAT, {0x02}, 1},
+};
+#define N_RXB ((int) (sizeof RXB / sizeof RXB[0]))
+static void queue_rx_batch(void) { for (int i = 0; i < N_RXB; i++) { uint8_t m[40], f[90]; int ml = rc_build_msg(m, SB.n[M.b[RXB[i].board].sbnode].addr, 0, RXB[i].type, RXB[i].d, RXB[i].dl); env_push_quiet(f, rc_frame(f, m, (size_t) ml, 1)); } }
+/* the argument classes used in pair mode: all variants of small entries; for the big setters the valid combinations + unknown + NULL */
+static int pair_variants(int e, int *out) {
+	int nv = entry_variants(e), n = 0;
+	if (nv <= 16) { for (int v = 0; v < nv; v++) out[n++] = v; return n; }
+	static const struct { const char *name; int v[6]; } VALID[] = {
+		{"bidib_switch_point", {4, 20, 5, 21, -1}}, {"bidib_set_signal", {38, 55, -1}}, {"bidib_set_peripheral", {72, 8, -1}}, {"bidib_set_train_speed", {28, 45, 12, -1}},
+		{"bidib_set_calibrated_train_speed", {28, 12, -1}}, {"bidib_emergency_stop_train", {12, 13, -1}}, {"bidib_set_train_peripheral", {76, 92, 12, -1}}, {"bidib_set_booster_power_state", {16, 19, 0, -1}},
+		{"bidib_set_track_output_state", {16, 0, 19, -1}}, {"bidib_request_reverser_state", {11, -1}}, {"bidib_identify", {0, 17, 34, -1}}, {"bidib_get_train_peripheral_state", {12, 13, 28, -1}},
+	};
+	for (size_t k = 0; k < sizeof VALID / sizeof VALID[0]; k++) if (!strcmp(VALID[k].name, entry_name(e))) for (int i = 0; VALID[k].v[i] >= 0; i++) out[n++] = VALID[k].v[i];
+	out[n++] = 14; out[n++] = 15; return n;
+}
+static int pair_a, pair_b, pair_rx_mode;
+static void *pair_t(void *arg) { int which = (int) (intptr_t) arg; int e = which ? pair_b : pair_a; int vs[24]; int nv = pair_variants(e, vs);
+	for (int i = 0; i < nv; i++) run_entry(e, vs[i]);
+	if (which && pair_rx_mode == 1) queue_rx_batch();
+	return NULL; }
+static void c10_pair_child(const void *job, size_t n) {
+	vs_dev_t devs[VS_MAXDEV]; int nd; size_t pl; const uint8_t *p = job_parse(job, n, devs, &nd, &pl);
+	int from, count; memcpy(&from, p, 4); memcpy(&count, p + 4, 4); pair_rx_mode = p[8]; int single = p[9];
+	int NE = N_HL + N_LL;
+	hx_child_begin(devs, nd, single ? 1 : 0, NULL, 0, 0);
+	san_tsan_ignore(1);
+	cm_std(&M); cm_install(&M);
+	if (hx_start_normal(0)) res_infra("normal start failed");
+	hx_quiesce(); vs_sleep_us(2500000); hx_quiesce();
+	uint8_t *m; while ((m = bidib_read_message())) free(m); while ((m = bidib_read_error_message())) free(m);
+	hx_hash_t h; hx_hash_init(&h); long npairs = 0;
+	for (int k = from; k < from + count && k < NE * NE; k++) {
+		pair_a = k / NE; pair_b = k % NE;
+		char what[200]; snprintf(what, sizeof what, "H5 %s || %s || receiver(batch %s)", entry_name(pair_a), entry_name(pair_b), pair_rx_mode ? "last" : "first");
+		hx_set_context(what); res_progress(k);
+		vs_sleep_us(2500000); hx_quiesce();
+		san_reset(); san_tsan_ignore(0);
+		if (pair_rx_mode == 0) queue_rx_batch();
+		vs_window(1);
+		int t1 = vs_spawn(pair_t, (void *) (intptr_t) 0), t2 = vs_spawn(pair_t, (void *) (intptr_t) 1);
+		vs_join_tid(t1); vs_join_tid(t2); hx_quiesce();
+		vs_window(0);
+		int before = res_nviol();
+#if defined(VARIANT_TSAN)
+		emit_races(what);
+#endif
+		san_tsan_ignore(1);
+		for (int t = 0; t < VS_MAXT; t++) if (vs_held_count(t)) { char held[200]; vs_held_desc(t, held, sizeof held); char cls[300]; snprintf(cls, sizeof cls, "lock-held-after-calls locks=%s", held); res_violation(cls, "%s: thread %d still holds %s", what, t, held); }
+		hx_emit_ledger_violations("C10");
+		bidib_flush(); hx_quiesce();
+		while ((m = bidib_read_message())) free(m); while ((m = bidib_read_error_message())) free(m);
+		npairs++;
+		if (res_nviol() > before && !single) { res_printf("F %d\n", k); break; }   /* the parent re-runs the failing pair alone for a minimal replay */
+	}
+	res_printf("C api_pairs %ld\nO %x %x\n", npairs, from, pair_rx_mode);
+	if (single) hx_emit_trace();
+	res_finish();
+}
 static char refbuf[5][8192]; static size_t reflen[5];
-void c10_register(void) { harness_register("c10.h", c10_child); }
+typedef struct { int32_t from, count; uint8_t rx_mode, single; } pjob_t;
+static pjob_t *pjobs; static long npjobs, cappjobs, pround_base;
+static void padd(long from, long count, int mode) { if (count <= 0) return; if (npjobs == cappjobs) { cappjobs = cappjobs ? cappjobs * 2 : 1024; pjobs = realloc(pjobs, sizeof(pjob_t) * (size_t) cappjobs); }
+	pjobs[npjobs++] = (pjob_t) { (int32_t) from, (int32_t) count, (uint8_t) mode, 0 }; }
+static size_t pair_payload(const pjob_t *j, uint8_t *payload) { memcpy(payload, &j->from, 4); memcpy(payload + 4, &j->count, 4); payload[8] = j->rx_mode; payload[9] = j->single; return 10; }
+static size_t pair_gen(long idx, uint8_t *payload, char *human, size_t hn) {
+	pjob_t *j = &pjobs[pround_base + idx]; int NE = N_HL + N_LL;
+	snprintf(human, hn, "%spairs %d..%d (first: %s || %s) receiver batch %s", j->count == 1 ? "single case " : "", j->from, j->from + j->count - 1, entry_name(j->from / NE), entry_name(j->from % NE), j->rx_mode ? "last" : "first");
+	return pair_payload(j, payload);
+}
+static long presume[4096][2]; static int npresume;
+static void pair_on_result(long idx, const run_res_t *r) {
+	long fail = -1; const char *l = res_line(r, 'F', 0);
+	if (l) fail = atol(l); else if (r->status != 0) fail = res_last_progress(r);
+	if (fail >= 0 && npresume < 4096) { presume[npresume][0] = pround_base + idx; presume[npresume][1] = fail; npresume++; }
+}
+void c10_register(void) { harness_register("c10.h", c10_child); harness_register("c10.pair", c10_pair_child); }
+static int excluded_entry(int e) { return !strcmp(entry_name(e), "bidib_send_sys_reset"); }
+static void run_pairs(int thorough, int tsan, long *execs, long *states, long *transitions, int *exhaustive) {
+	int NE = N_HL + N_LL; npjobs = 0; pround_base = 0; long planned = 0;
+	/* catalogue: every ordered pair; quick: receiver batch first; thorough: both receiver modes */
+	for (int mode = 0; mode <= (thorough ? 1 : 0); mode++) for (int a = 0; a < NE; a++) { if (excluded_entry(a)) continue;
+		/* one job per row a; pairs with an excluded b are skipped in the child by splitting the row */
+		int b0 = 0; for (int b = 0; b <= NE; b++) if (b == NE || excluded_entry(b)) { padd((long) a * NE + b0, b - b0, mode); planned += b - b0; b0 = b + 1; } }
+	/* split rows into batches of 48 pairs */
+	{ long n0 = npjobs; pjob_t *old = malloc(sizeof(pjob_t) * (size_t) n0); memcpy(old, pjobs, sizeof(pjob_t) * (size_t) n0); npjobs = 0;
+	  for (long i = 0; i < n0; i++) for (long s0 = 0; s0 < old[i].count; s0 += 48) padd(old[i].from + s0, old[i].count - s0 < 48 ? old[i].count - s0 : 48, old[i].rx_mode); free(old); }
+	for (int round = 0; round < 50 && pround_base < npjobs; round++) {
+		npresume = 0; long nround = npjobs - pround_base;
+		ex_spec_t e = { .harness = "c10.pair", .ncases = nround, .gen = pair_gen, .on_result = pair_on_result, .label = "c10.pair" };
+		ex_map(&e); *execs += e.done; if (!e.exhaustive) { *exhaustive = 0; break; }
+		pround_base = npjobs;
+		for (int k = 0; k < npresume; k++) { pjob_t j = pjobs[presume[k][0]]; long fail = presume[k][1];
+			if (j.count > 1) padd(fail, 1, j.rx_mode);
+			padd(fail + 1, (long) j.from + j.count - (fail + 1), j.rx_mode); }
+		if (rep_nviol() > 60) { *exhaustive = 0; rep_note("H5: more than 60 finding classes, stopping"); break; }
+	}
+	*states += rep_get("api_pairs"); *transitions += rep_get("api_pairs") * 2;
+	rep_note("H5 API pairs: %d catalogue calls (%d high-level/util incl. every getter, %d low-level), %ld ordered pairs planned, %ld executed (each thread runs its call with every argument class; receiver applies a %d-message feedback batch concurrently; %s)",
+	         NE - 1, N_HL - 1, N_LL, planned, rep_get("api_pairs"), N_RXB, thorough ? "receiver batch first and last" : "receiver batch first");
+	/* thorough: schedule exploration (1 preemption) of every (getter/reader/flush, high-level setter) pair */
+	if (thorough) {
+		long sched = 0, npairs = 0; int minb = 9;
+		for (int a = 0; a < N_HL; a++) for (int b = 0; b < N_HL; b++) {
+			int a_reader = !strncmp(entry_name(a), "bidib_get", 9) || !strncmp(entry_name(a), "getters", 7) || !strncmp(entry_name(a), "bidib_read", 10) || !strcmp(entry_name(a), "bidib_flush");
+			int b_setter = !strncmp(entry_name(b), "bidib_set", 9) || !strncmp(entry_name(b), "bidib_switch", 12) || !strncmp(entry_name(b), "bidib_emergency", 15) || !strncmp(entry_name(b), "bidib_request", 13);
+			if (!a_reader || !b_setter) continue;
+			if (rep_elapsed() > rep_deadline_s) { *exhaustive = 0; break; }
+			pjob_t j = { a * NE + b, 1, 0, 1 }; uint8_t param[16]; size_t pn = pair_payload(&j, param);
+			char label[200]; snprintf(label, sizeof label, "H5/E1 %s || %s || receiver", entry_name(a), entry_name(b));
+			e1_spec_t s = { .harness = "c10.pair", .param = param, .nparam = pn, .bound = tsan ? 1 : 1, .label = strdup(label) };
+			e1_explore(&s); for (int k = 0; k < 8; k++) sched += s.schedules_by_cost[k]; npairs++; *states += s.distinct_outcomes; *transitions += s.choice_points; if (!s.exhaustive) *exhaustive = 0; if (s.completed_bound < minb) minb = s.completed_bound;
+		}
+		*execs += sched;
+		rep_note("H5/E1: %ld (reader, setter) pairs explored with 1 preemption: %ld schedules, smallest completed bound %d", npairs, sched, minb);
+	}
+}
 int c10_run(const char *tier) {
 	int thorough = !strcmp(tier, "thorough");
 	const char *variant = getenv("VERIF_VARIANT"); int tsan = variant && !strcmp(variant, "tsan");
@@ -179,6 +309,7 @@ int c10_run(const char *tier) {
 		rep_note("%s: bound=%d completed=%d schedules by cost=[%ld,%ld,%ld,%ld] distinct outcomes=%ld contended executions=%ld reference values=%zu bytes", HN[hn], s.bound, s.completed_bound,
 		         s.schedules_by_cost[0], s.schedules_by_cost[1], s.schedules_by_cost[2], s.schedules_by_cost[3], s.distinct_outcomes, s.contended_execs, reflen[hn]);
 	}
+	run_pairs(thorough, tsan, &execs, &states, &transitions, &exhaustive);
 	rep_count("executions", execs); rep_count("states", states); rep_count("transitions", transitions); rep_flag("exhaustive", exhaustive);
 	return 0;
 }
